@@ -262,6 +262,25 @@ def check_case(case, ctx):
             i = next((k for k, (x, y) in enumerate(zip(a, b_)) if x != y), min(len(a), len(b_)))
             fails.append(Fail("protocols-differ:%s" % fam, "%s shows %r where Gopher shows %r (entry %d)" % (
                 f2, a[i] if i < len(a) else None, b_[i] if i < len(b_) else None, i), {"gophermap": text}))
+        if not fails and not case["asfile"] and fam == "http" and case["depth"] % 2 == 0:
+            # a web client that revalidates its copy: the map is rewritten IN PLACE (the directory's own timestamp does not
+            # move), then the same client asks again, saying since when it has its copy - it must be shown the new line
+            import os
+            ddir = os.path.join(root, dpath) if dpath else root
+            st_ = os.stat(ddir)
+            lm = dict(p2.headers).get(b"last-modified")
+            with open(os.path.join(ddir, "gophermap"), "ab") as f:
+                if not case["final_newline"]:
+                    f.write(b"\r\n" if case["crlf"] else b"\n")
+                f.write(b"0Added after the first visit\t/added-later\r\n" if case["crlf"] else b"0Added after the first visit\t/added-later\n")
+            os.utime(ddir, (st_.st_atime, st_.st_mtime))
+            if lm:
+                rq = clients.encode(f2, world.b(reqsel)).replace(b"Host: gopher.example\r\n", b"Host: gopher.example\r\nIf-Modified-Since: " + lm + b"\r\n")
+                r3 = drive.serve(cfg, rq, tls=clients.FORMS[f2][0])
+                ctx.label("revalidation")
+                if b"Added after the first visit" not in r3.response:
+                    fails.append(Fail("revalidation-stale:%s" % fam, "the gophermap was rewritten in place; a %s client that asks again with "
+                                      "If-Modified-Since: %r is not shown the new line: %r %r" % (f2, lm, r3.response[:80], r3.escaped)))
         return fails
     finally:
         world.rmtree(d)
